@@ -566,7 +566,11 @@ func (n *node) RouteLinkPID(pid gen.PID, target gen.PID) error {
 		if _, exist := n.processes.Load(target); exist == false {
 			return gen.ErrProcessUnknown
 		}
-		return n.targetManager.AddLink(pid, target)
+		if err := n.targetManager.AddLink(pid, target); err != nil {
+			return err
+		}
+		_, exist := n.processes.Load(target)
+		return relationAdded(exist, func() error { return n.targetManager.RemoveLink(pid, target) }, gen.ErrProcessUnknown)
 	}
 
 	// remote target
@@ -626,7 +630,11 @@ func (n *node) RouteLinkProcessID(pid gen.PID, target gen.ProcessID) error {
 		if _, exist := n.names.Load(target.Name); exist == false {
 			return gen.ErrProcessUnknown
 		}
-		return n.targetManager.AddLink(pid, target)
+		if err := n.targetManager.AddLink(pid, target); err != nil {
+			return err
+		}
+		_, exist := n.names.Load(target.Name)
+		return relationAdded(exist, func() error { return n.targetManager.RemoveLink(pid, target) }, gen.ErrProcessUnknown)
 	}
 
 	// remote target
@@ -683,7 +691,11 @@ func (n *node) RouteLinkAlias(pid gen.PID, target gen.Alias) error {
 		if _, exist := n.aliases.Load(target); exist == false {
 			return gen.ErrAliasUnknown
 		}
-		return n.targetManager.AddLink(pid, target)
+		if err := n.targetManager.AddLink(pid, target); err != nil {
+			return err
+		}
+		_, exist := n.aliases.Load(target)
+		return relationAdded(exist, func() error { return n.targetManager.RemoveLink(pid, target) }, gen.ErrAliasUnknown)
 	}
 
 	// remote target
@@ -749,6 +761,10 @@ func (n *node) RouteLinkEvent(pid gen.PID, target gen.Event) ([]gen.MessageEvent
 
 		event := value.(*eventOwner)
 		if err := n.targetManager.AddLink(pid, target); err != nil {
+			return nil, err
+		}
+		_, exist = n.events.Load(target)
+		if err := relationAdded(exist, func() error { return n.targetManager.RemoveLink(pid, target) }, gen.ErrEventUnknown); err != nil {
 			return nil, err
 		}
 
@@ -865,7 +881,11 @@ func (n *node) RouteMonitorPID(pid gen.PID, target gen.PID) error {
 				return gen.ErrProcessTerminated
 			}
 		}
-		return n.targetManager.AddMonitor(pid, target)
+		if err := n.targetManager.AddMonitor(pid, target); err != nil {
+			return err
+		}
+		_, exist := n.processes.Load(target)
+		return relationAdded(exist, func() error { return n.targetManager.RemoveMonitor(pid, target) }, gen.ErrProcessUnknown)
 	}
 
 	// remote target
@@ -928,7 +948,11 @@ func (n *node) RouteMonitorProcessID(pid gen.PID, target gen.ProcessID) error {
 				return gen.ErrProcessTerminated
 			}
 		}
-		return n.targetManager.AddMonitor(pid, target)
+		if err := n.targetManager.AddMonitor(pid, target); err != nil {
+			return err
+		}
+		_, exist := n.names.Load(target.Name)
+		return relationAdded(exist, func() error { return n.targetManager.RemoveMonitor(pid, target) }, gen.ErrProcessUnknown)
 	}
 
 	// remote target
@@ -987,7 +1011,11 @@ func (n *node) RouteMonitorAlias(pid gen.PID, target gen.Alias) error {
 		if _, exist := n.aliases.Load(target); exist == false {
 			return gen.ErrAliasUnknown
 		}
-		return n.targetManager.AddMonitor(pid, target)
+		if err := n.targetManager.AddMonitor(pid, target); err != nil {
+			return err
+		}
+		_, exist := n.aliases.Load(target)
+		return relationAdded(exist, func() error { return n.targetManager.RemoveMonitor(pid, target) }, gen.ErrAliasUnknown)
 	}
 
 	// remote target
@@ -1052,6 +1080,10 @@ func (n *node) RouteMonitorEvent(pid gen.PID, target gen.Event) ([]gen.MessageEv
 		}
 		event := value.(*eventOwner)
 		if err := n.targetManager.AddMonitor(pid, target); err != nil {
+			return nil, err
+		}
+		_, exist = n.events.Load(target)
+		if err := relationAdded(exist, func() error { return n.targetManager.RemoveMonitor(pid, target) }, gen.ErrEventUnknown); err != nil {
 			return nil, err
 		}
 
@@ -1587,5 +1619,21 @@ func (n *node) sendEventMessage(
 
 	atomic.AddUint64(&p.messagesIn, 1)
 	p.run()
+	return nil
+}
+
+// relationAdded is called right after a link or monitor on a local target has been
+// registered. If the target went away between the caller's existence check and the
+// registration, its clean-up may have missed the new relation: the relation is then
+// withdrawn and the request fails, because nobody would ever notify it. If the
+// clean-up did take the relation, the requester is being notified like every other
+// one and the request stands.
+func relationAdded(stillThere bool, withdraw func() error, gone error) error {
+	if stillThere {
+		return nil
+	}
+	if withdraw() == nil {
+		return gone
+	}
 	return nil
 }
